@@ -277,12 +277,16 @@ Definition op_mod_l (this l : Z) : Z :=
   if 0 <? l then to_i64 (op_mod_ul this (to_u64 l))
   else to_i64 (op_mod_ul this (to_u64 (c_neg64 l))).
 
-(* gmp++_int.h: int32_t operator % (const uint32_t n) const { return (int32_t)this->operator%((uint64_t)n); } *)
-Definition op_mod_u (this n : Z) : Z := to_i32 (op_mod_ul this (to_u64 n)).
+(* gmp++_int.h (since e502f6c = frag/C02.fix-3.diff): int64_t operator % (const uint32_t n) const { return this->operator%((uint64_t)n); } *)
+Definition op_mod_u (this n : Z) : Z := op_mod_ul this (to_u64 n).
+(* HISTORY: the body before e502f6c, int32_t ... { return (int32_t)this->operator%((uint64_t)n); } (refuted: C02_percent_narrow_return_refuted) *)
+Definition op_mod_u_old (this n : Z) : Z := to_i32 (op_mod_ul this (to_u64 n)).
 (* gmp++_int.h: int32_t operator % (const int32_t n) const { return (int32_t)this->operator%((int64_t)n); } *)
 Definition op_mod_i (this n : Z) : Z := to_i32 (op_mod_l this (to_i64 n)).
-(* gmp++_int.h: int16_t operator % (const uint16_t n) const { return (int16_t)(this->operator%((uint64_t)n)); } *)
-Definition op_mod_us (this n : Z) : Z := to_i16 (op_mod_ul this (to_u64 n)).
+(* gmp++_int.h (since e502f6c): int32_t operator % (const uint16_t n) const { return (int32_t)(this->operator%((uint64_t)n)); } *)
+Definition op_mod_us (this n : Z) : Z := to_i32 (op_mod_ul this (to_u64 n)).
+(* HISTORY: the body before e502f6c, int16_t ... { return (int16_t)(...); } *)
+Definition op_mod_us_old (this n : Z) : Z := to_i16 (op_mod_ul this (to_u64 n)).
 
 (* gmp++_int.h: template<class XXX> XXX operator %(const XXX& n) const { return (XXX)this->operator % ( Integer(n) ); }
    instantiated at XXX = short (Integer(short) goes through Integer(int32_t); the result, of magnitude
@@ -304,16 +308,29 @@ Definition round53 (z : Z) : Z :=
   let q' := if orb (h <? r) (andb (r =? h) (Z.odd q)) then q + 1 else q in
   Z.sgn z * (q' * 2 ^ k).
 
-(* double Integer::operator % (const double l) const
-     if (l>0) res = static_cast<double>(this->operator%( static_cast<uint64_t>(l) ) );
-     else     res = static_cast<double>(this->operator%( static_cast<uint64_t>(-l) ) );
-   The double l is given as the dyadic K / 2^s (s >= 0 fractional bits); static_cast<uint64_t> truncates
-   (defined for an integer part < 2^64).  op_mod_d: integer-valued l (s = 0); op_mod_dx: s = 4. *)
-Definition op_mod_dfrac (this K s : Z) : Z :=
-  if 0 <? K then round53 (op_mod_ul this (to_u64 (K / 2 ^ s)))
-  else round53 (op_mod_ul this (to_u64 ((- K) / 2 ^ s))).
+(* Integer -> double (operator double = mpz_get_d): truncation TOWARDS ZERO to a 53-bit significand *)
+Definition trunc53 (z : Z) : Z :=
+  let a := Z.abs z in
+  if a <? 9007199254740992 then z else
+  let k := Z.log2 a - 52 in
+  Z.sgn z * ((a / 2 ^ k) * 2 ^ k).
+
+(* double Integer::operator % (const double l) const          (body since 2c6554a = frag/C02.fix-5.diff)
+     const double res = static_cast<double>( this->operator%( Integer(l) ) );
+   The double l is given as the dyadic K / 2^s (s >= 0 fractional bits); Integer(double) = mpz_init_set_d truncates towards
+   zero; the remainder goes back through operator double = mpz_get_d.  op_mod_d: integer-valued l (s = 0); op_mod_dx: s = 4. *)
+Definition op_mod_dfrac (this K s : Z) : Z := trunc53 (op_mod_I this (Z.quot K (2 ^ s))).
 Definition op_mod_d (this l : Z) : Z := op_mod_dfrac this l 0.
 Definition op_mod_dx (this K : Z) : Z := op_mod_dfrac this K 4.
+(* HISTORY: the body before 2c6554a went through the uint64_t overload (int64_t result, wraps for |l| > 2^63) and rounded the
+   int64_t to double to NEAREST (round53):
+     if (l>0) res = static_cast<double>(this->operator%( static_cast<uint64_t>(l) ) );
+     else     res = static_cast<double>(this->operator%( static_cast<uint64_t>(-l) ) );  *)
+Definition op_mod_dfrac_old (this K s : Z) : Z :=
+  if 0 <? K then round53 (op_mod_ul this (to_u64 (K / 2 ^ s)))
+  else round53 (op_mod_ul this (to_u64 ((- K) / 2 ^ s))).
+Definition op_mod_d_old (this l : Z) : Z := op_mod_dfrac_old this l 0.
+Definition op_mod_dx_old (this K : Z) : Z := op_mod_dfrac_old this K 4.
 
 (* Integer operator % (const int32_t/int64_t/uint32_t/uint64_t l, const Integer& n) { return Integer(l) % n; } *)
 Definition w_mod_I (l n : Z) : Z := op_mod_I l n.
@@ -374,6 +391,7 @@ Definition cast_i64_i16 (z : Z) : Z := to_i16 z.                  (* (int16_t)(i
 Definition cast_abs64 (z : Z) : Z := to_u64 (c_abs64 z).          (* unsigned long a = std::abs(long) *)
 Definition cast_neg64 (z : Z) : Z := to_u64 (c_neg64 z).          (* unsigned long a = -long *)
 Definition cast_i64_dbl (z : Z) : Z := round53 z.                 (* static_cast<double>(int64_t) *)
+Definition cast_mpz_dbl (z : Z) : Z := trunc53 z.                 (* mpz_get_d / Integer::operator double *)
 Definition cast_dbl_u64 (K : Z) : Z := to_u64 (K / 2 ^ 4).        (* static_cast<uint64_t>(K / 16.0), 0 <= K/16 < 2^64 *)
 
 (* configuration the model is written for (printed by the compiled harness on every check: forms "cfg.*") *)
